@@ -252,7 +252,7 @@ def first_word(s):
 
 
 def check_C02(ctx):
-    facts, rep, rows, broken = codec_common(ctx, {"enc-wf", "rt"}, 300, 4000)
+    facts, rep, rows, broken = codec_common(ctx, {"enc-wf", "rt"}, 600, 4000)
     ctx.assumptions += CODEC_ASSUME + ["concurrent encodes are covered by the generated fact gen_pkg_var_writes = [] (no package state is written) and by the history/parallel suite, not by a model of the Go memory model"]
     bad = 0
     for g, cmd, impl, model in rows:
@@ -281,7 +281,7 @@ def check_C02(ctx):
 
 
 def check_C13(ctx):
-    facts, rep, rows, broken = codec_common(ctx, {"enc-any", "enc-shape", "enc-wf", "dec-target"}, 300, 4000)
+    facts, rep, rows, broken = codec_common(ctx, {"enc-any", "enc-shape", "enc-wf", "dec-target"}, 600, 4000)
     ctx.assumptions += CODEC_ASSUME
     bad = 0
     for g, cmd, impl, model in rows:
@@ -312,7 +312,7 @@ def check_C13(ctx):
 
 
 def check_C01(ctx):
-    facts, rep, rows, broken = codec_common(ctx, {"rt"}, 300, 4000)
+    facts, rep, rows, broken = codec_common(ctx, {"rt"}, 600, 4000)
     ctx.assumptions += CODEC_ASSUME
     bad = 0
     # how many of the generated values satisfy the (computable) hypothesis of theorem C01_roundtrip?
@@ -347,7 +347,7 @@ def check_C01(ctx):
 
 
 def check_C04(ctx):
-    facts, rep, rows, broken = codec_common(ctx, {"dec-valid", "dec-mut", "dec-random", "dec-trunc", "dec-noncanon"}, 300, 5000)
+    facts, rep, rows, broken = codec_common(ctx, {"dec-valid", "dec-mut", "dec-random", "dec-trunc", "dec-noncanon"}, 600, 5000)
     ctx.assumptions += CODEC_ASSUME
     bad = 0
     for g, cmd, impl, model in rows:
@@ -413,7 +413,7 @@ def check_C04(ctx):
 
 
 def check_C06(ctx):
-    facts, rep, rows, broken = codec_common(ctx, {"stream", "cstream", "cdec"}, 300, 3000)
+    facts, rep, rows, broken = codec_common(ctx, {"stream", "cstream", "cdec"}, 600, 3000)
     ctx.assumptions += CODEC_ASSUME + ["fragmentation: theorem C06_chunking covers every script of read sizes on the reader-object model (Readers.v), which is tied to the real bufio / LimitReader / ReadFull / CopyN by running both on the same scripts (groups cstream, cdec); in addition every two-way split, one-byte, random chunks, data with EOF, empty reads and a 16-byte bufio are applied on the implementation and compared with the in-memory result"]
     scripted_rows(ctx, rows, {"cstream", "cdec"}, "successive Decode calls on one Decoder over a scripted transport differ from the reader-object model (which by theorem C06_chunking returns the messages one by one, then io.EOF, and from an io.ByteScanner consumes exactly each message)")
     rows = [r for r in rows if r[0].split(":")[-1] not in ("cdec", "cstream")]
@@ -842,6 +842,20 @@ def check_C11(ctx):
         ctx.violation("harness-build", {"what": "harness does not build against the current tree", "log": tail(facts.get("harness_log", ""))}, found_input=False)
         return ctx.finish()
     rep, rows = run_suite_with_model(ctx, facts, "shutdown", ["-len", "6" if ctx.tier == "quick" else "8"])
+    # schedules are forced through gates, but "everything that can run has run" is decided by polling: on a loaded
+    # machine a schedule can be observed too early.  Every disagreeing schedule is therefore run again, alone and with
+    # stretched polling, and only what persists is reported.
+    suspects = [cmd.split(" ", 1)[1] for g, cmd, impl, model in rows if not shutdown_compare(impl, model)]
+    if rep:
+        suspects += [v.get("schedule") for v in rep["violations"] if v.get("schedule")]
+    suspects = sorted(set(suspects))[:40]
+    if suspects and rep:
+        rep2, rows2 = run_suite_with_model(ctx, facts, "shutdown", ["-only", ",".join(suspects), "-slow", "8"])
+        if rep2 is not None:
+            redo = {cmd: (impl, model) for g, cmd, impl, model in rows2}
+            rows = [(g, cmd) + redo.get(cmd, (impl, model)) for g, cmd, impl, model in rows]
+            rep["violations"] = [v for v in rep["violations"] if v.get("schedule") not in suspects] + rep2["violations"]
+            ctx.cov["schedules_rerun_for_confirmation"] = len(suspects)
     bad = 0
     for g, cmd, impl, model in rows:
         if not shutdown_compare(impl, model):
@@ -909,8 +923,8 @@ def check_C12(ctx):
 
 
 CHECKS = {"C18": check_C18, "C19": check_C19, "C02": check_C02, "C03": check_C03, "C13": check_C13,
-          "C07": make_session_check("C07", 150, 3000), "C08": make_session_check("C08", 150, 3000),
-          "C09": make_session_check("C09", 150, 3000), "C10": make_session_check("C10", 150, 3000, stall_extra),
+          "C07": make_session_check("C07", 400, 3000), "C08": make_session_check("C08", 400, 3000),
+          "C09": make_session_check("C09", 400, 3000), "C10": make_session_check("C10", 400, 3000, stall_extra),
           "C15": make_session_check("C15", 100, 1500, timing_extra),
           "C17": make_simple_check("C17", "accept", ["-len", "4"], ["-len", "6"],
                                    "behaviour of Serve on this sequence of Accept results differs from the model of the accept loop (sleeps, served connections, result)",
